@@ -22,7 +22,7 @@ LEVEL = 'exploration'
 FRESH_PROCESS_PER_JOB = True
 RULE = ('one case = (prime p, operation incl. parameters, coefficient array(s) with trailing zeros, configuration, mask script). '
         'thorough: GF(5): ALL pairs of arrays of length <= 3 (156^2) for every binary operation; GF(7): all 400^2 pairs for + - * == != '
-        '// % divmod < gcd; the other call forms (<= > >=, static mod, public operands) and gcdext/invert/powmod/if_else on all pairs '
+        '// % < gcd; the other call forms (divmod, <= > >=, static mod, public operands) and gcdext/invert/powmod/if_else on all pairs '
         'of length <= 2 plus the length-3 arrays over {0,1,3,6} (121^2); GF(509): arrays over {0,1,2,254,508} (length <= 2) and {0,1,508} (length 3); every unary '
         'operation x every parameter value on all arrays.  quick: GF(5) all pairs of length <= 2 (ring operations also with the length-3 '
         'arrays over {0,1,4}; gcdext/invert/powmod on arrays over {0,1,4}); GF(7), GF(509) arrays over {0,1,p-1}.  Masks: seeded for every case; all-zero / all-max for the pairs over {0,1,p-1} of '
@@ -86,7 +86,7 @@ def domains(p, tier):
 
 
 def _domains(p, tier):
-    """dict: 'all' (unary + cheap binary), 'mid' (// % divmod < gcd), 'mid2' (their other call forms), 'heavy' (gcdext/invert/
+    """dict: 'all' (unary + cheap binary), 'mid' (// % < gcd), 'mid2' (their other call forms), 'heavy' (gcdext/invert/
     powmod/if_else), 'modes'."""
     full = list(range(p))
     e = edge(p)
@@ -96,7 +96,7 @@ def _domains(p, tier):
             a = arrays(full, 3)
             return dict(all=a, mid=a, heavy=a, modes=arrays(full, 2))
         return dict(all=arrays(full, 2) + arrays(e, 3, 3), mid=arrays(full, 2) + extra3 + [(1, 1, 1), (0, e[2], 1)],
-                    heavy=arrays(e, 2) + extra3, modes=arrays(e, 2))
+                    heavy=arrays(e, 2) + extra3 + [(2, 1, e[2])], modes=arrays(e, 2))
     if p == 7:
         if tier == 'thorough':
             a = arrays(full, 3)
@@ -211,7 +211,7 @@ def build_ops(env):
     op('floordiv', 2, 'mid', lambda f, g: f // g, lambda a, b: a // _nz(b))
     op('mod', 2, 'mid', lambda f, g: f % g, lambda a, b: a % _nz(b))
     op('mod:static', 2, 'mid2', lambda f, g: secpoly.mod(f, g), lambda a, b: a % _nz(b))
-    op('divmod', 2, 'mid', lambda f, g: list(divmod(f, g)), lambda a, b: list(divmod(a, _nz(b))), 'polys')
+    op('divmod', 2, 'mid2', lambda f, g: list(divmod(f, g)), lambda a, b: list(divmod(a, _nz(b))), 'polys')
     op('lt', 2, 'mid', lambda f, g: f < g, lambda a, b: int(a < b), 'elt')
     op('le', 2, 'mid2', lambda f, g: f <= g, lambda a, b: int(a <= b), 'elt')
     op('gt', 2, 'mid2', lambda f, g: f > g, lambda a, b: int(a > b), 'elt')
@@ -485,7 +485,7 @@ def mp_cases(p, tier):
     two = [(), (1,), (0, 1), (1, e[2]), (e[2], 1, 1)]
     if tier == 'thorough':
         one = arrays(e, 2) + [(1, 0, e[2]), (0, e[2], 1), (0, 0, 0)]
-        two = arrays(e, 2) + [(1, 0, 1), (e[2], 1, 1), (0, 0, 0), (0, 1, e[2])]
+        two = arrays(e, 1) + [(0, 1), (1, e[2]), (e[2], 0), (1, 0, 1), (e[2], 1, 1), (0, 0, 0)]
     out = []
     for name in MP_OPS:
         arity = OP_NAMES[p][name][0]
@@ -577,7 +577,8 @@ def run_mp(job):
         if any(r != r0 for r in per):
             part.violation(f'{base}:mp:parties-differ', f'{tag}: parties obtained {per!r:.240} (masks {pat})', detail)
         elif r0[0] == 'raised':
-            part.violation(f'{base}:exception:{r0[1]}', f'{tag} raised {r0[2]} (masks {pat})', detail)
+            part.violation(f'{base}:exception:{r0[1]}' + (':empty-operands' if all(len(c) == 0 for c in inputs) else ''),
+                           f'{tag} raised {r0[2]} (masks {pat})', detail)
         elif r0[1]:
             key = f'{base}:{r0[1]}'
             if name in ('powmod:0', 'powmod:1') and r0[1] == 'value':
@@ -605,7 +606,8 @@ def run_mp(job):
                     part.case(key=None)
                     errs = sorted({e.get('exception') or '' for pe in world.loop_errors for e in pe})
                     cls = errs[0].split('(')[0] if errs else status1
-                    part.violation(f'C38:{name.split(":")[0]}:mp:incomplete:{cls}',
+                    part.violation(f'C38:{name.split(":")[0]}:exception:{cls}:empty-operands' if errs and all(len(c) == 0 for c in inputs) else
+                                   f'C38:{name.split(":")[0]}:mp:incomplete:{cls}',
                                    f'[{cfg}] {name}({[list(c) for c in inputs]}): execution ends {status1}: {errs!r:.300} (masks {pat})',
                                    dict(engine='mp', p=p, no_prss=no_prss, name=name, inputs=[list(c) for c in inputs], pat=pat, seed=job['seed'],
                                         tier=job['tier']))
@@ -626,7 +628,7 @@ def env_deg0(c):
 
 def jobs(tier, seed):
     out = []
-    nbins = {5: 14 if tier == 'quick' else 26, 7: 8 if tier == 'quick' else 24, 509: 6 if tier == 'quick' else 8}
+    nbins = {5: 14 if tier == 'quick' else 24, 7: 8 if tier == 'quick' else 28, 509: 6 if tier == 'quick' else 4}
     for p in PRIMES:
         units = sorted(unit_list(p, tier), key=lambda u: (-u[0], u[1]))
         bins = [[0.0, []] for _ in range(nbins[p])]
@@ -639,7 +641,7 @@ def jobs(tier, seed):
                 out.append(dict(engine='sp', p=p, units=b[1], tier=tier, seed=seed))
     for p in (5, 7):
         for no_prss in (False, True):
-            parts = 2 if tier == 'quick' else 4
+            parts = 2
             for i in range(parts):
                 out.append(dict(engine='mp', p=p, no_prss=no_prss, part=i, parts=parts, tier=tier, seed=seed))
     out.sort(key=lambda j: 0 if j['engine'] == 'mp' else 1)
